@@ -540,7 +540,7 @@ theorem enumStorage_neg (minV maxV : Int) (h : minV < 0) (hmax : maxV ≤ 214748
   obtain ⟨_, _, _, _, _, _, h7, h8, h9, _⟩ := probe_facts
   have hmi : Gen.gMaxInt = 2147483647 := by decide
   unfold enumStorage enumWidthSigned
-  simp only [h, ↓reduceIte, h7, h8, h9, hmi, hmax, decide_true]
+  simp only [h, ↓reduceIte, h7, h8, h9, hmi, hmax]
   split <;> (try split) <;> rfl
 
 /-- the branch added for a negative member together with a member above G_MAXINT -/
